@@ -83,9 +83,12 @@ CHECKS = {
     },
     "C08": {
         "level": "exploration",
-        "quick": {"shards": 16, "rounds": 1, "checks": 100, "timeout": 900},
-        "thorough": {"shards": 16, "rounds": 4, "checks": 500, "timeout": 3000},
-        "assumptions": [],
+        "quick": {"shards": 16, "rounds": 1, "checks": 150, "timeout": 900},
+        "thorough": {"shards": 16, "rounds": 6, "checks": 500, "timeout": 3000},
+        "assumptions": [
+            "single client, background flush quiesced between steps",
+            "strict increase across a crash is demanded only under SyncImmediate; crash = process death at hook sites",
+        ],
     },
     "C09": {
         "level": "exploration",
